@@ -39,6 +39,25 @@ def rtu_unknown_function(ctx):
     return len(cases)
 
 
+def loopback_pass(ctx, cases, both):
+    """thorough tier, black box: the public TCP server over real loopback sockets (listener task +
+    session task) on the TCP cases without authorization; a sentinel request delimits the answer"""
+    idx = [k for k, c in enumerate(cases) if c[0] == 'tcp' and c[2] is None and c[1]][:1500]
+    out = ctx.harness('server_tcp', [srv.to_line(cases[k]) for k in idx], shards=8, timeout=1800)
+    bad = []
+    for k, o in zip(idx, out):
+        rep, log, end = srv.split3(o)
+        srep, slog, _ = srv.split3(both[k][1])
+        if rep != [x for x in srep if x != '-'] or log != slog or end != 'open':
+            bad.append(k)
+    ctx.oblige('loopback-tcp:public-server-equals-reference-server', not bad, f'{len(bad)} of {len(idx)} sessions differ')
+    if bad:
+        c = cases[bad[0]]
+        ctx.violation('server.loopback-tcp', 'public TCP server over loopback differs from the reference server: ' + srv.describe(c),
+                      {'cases': [srv.case_to_json(c)], 'harness_line': srv.to_line(c), 'impl': out[idx.index(bad[0])], 'spec': both[bad[0]][1]})
+    return len(idx)
+
+
 def run(ctx):
     if not srv.prepare(ctx):
         return
@@ -56,6 +75,8 @@ def run(ctx):
     extra = {}
     if not ctx.replay:
         extra['rtu-unknown-function-sessions'] = rtu_unknown_function(ctx)
+        if not ctx.quick():
+            extra['loopback-tcp-sessions'] = loopback_pass(ctx, cases, both)
     cl = srv.coverage(ctx, cases, impl,
                       'sessions (link, unit map with programmable handlers, optional authorization, 1-12 request frames) from a seeded PRNG: corpus, '
                       'all boundary quantities x 6 function codes x 2 links, all PDU lengths 0..253 on TCP, all 256 function codes, then mixed structured/malformed '
